@@ -22,6 +22,8 @@ const preludeBody = `(declare-datatypes ((Path 0)) (((PNil) (PFld (pfp Path) (pf
 (declare-datatypes ((Iface 0)) (((mkiface (ityp Int) (ival Ptr)))))
 (define-fun niliface () Iface (mkiface 0 nilptr))
 (declare-fun tyof (Int Path) Int)
+(declare-fun eidx (Int Int) Int)
+(assert (forall ((o Int) (i Int)) (! (= (eidx o i) (+ o i)) :pattern ((eidx o i)))))
 (declare-sort Str 0)
 (declare-fun strlen (Str) Int)
 (declare-fun strat (Str Int) Int)
